@@ -223,6 +223,7 @@ impl Default for DriverCfg {
 pub struct Limits {
     pub max_events: u64,
     pub max_time: Ns,
+    pub max_heap: i64,
 }
 
 pub struct World {
@@ -265,6 +266,7 @@ pub struct World {
     pub reset_key_seeds: BTreeMap<u32, u64>,
     /// largest one-way delay any datagram experienced so far
     pub max_owd: Ns,
+    pub live_at_start: i64,
 }
 
 #[derive(Clone, Debug)]
@@ -332,7 +334,8 @@ impl World {
             trace_text: None,
             log: Vec::new(),
             log_on: false,
-            limits: Limits { max_events: 400_000, max_time: 12 * 3600 * SEC },
+            limits: Limits { max_events: 400_000, max_time: 12 * 3600 * SEC, max_heap: 1 << 30 },
+            live_at_start: crate::alloc::live(),
             hit_limit: None,
             rx_deltas: Vec::new(),
             in_flight: 0,
@@ -361,7 +364,8 @@ impl World {
         self.base + Duration::from_nanos(self.now)
     }
     pub fn to_ns(&self, i: Instant) -> Ns {
-        i.checked_duration_since(self.base).map_or(0, |d| d.as_nanos() as u64)
+        // saturating: hostile peers can push deadlines millions of years away
+        i.checked_duration_since(self.base).map_or(0, |d| d.as_nanos().min((u64::MAX / 4) as u128) as u64)
     }
 
     pub fn violate(&mut self, kind: impl Into<String>, detail: impl Into<String>) {
@@ -1099,7 +1103,9 @@ impl World {
             let gen = c.timer_gen;
             if self.log_on {
                 let pr = self.conns[inc as usize].conn.verif_probe();
-                self.logf(|| format!("inc{} timer -> {:?} [in_flight={}B/{}ae window={} probes={:?} pto_count={} validated={}]", inc, to.map(crate::world::fmt_t), pr.in_flight_bytes, pr.in_flight_ack_eliciting, pr.window, pr.loss_probes, pr.pto_count, pr.path_validated));
+                let names = ["LossDetection", "Idle", "Close", "KeyDiscard", "PathValidation", "KeepAlive", "Pacing", "PushNewCid", "MaxAckDelay"];
+                let first = pr.timers.iter().enumerate().filter_map(|(i, t)| t.map(|t| (t, names[i]))).min().map(|x| x.1).unwrap_or("-");
+                self.logf(|| format!("inc{} timer({}) -> {:?} [in_flight={}B/{}ae window={} probes={:?} pto_count={} validated={}]", inc, first, to.map(crate::world::fmt_t), pr.in_flight_bytes, pr.in_flight_ack_eliciting, pr.window, pr.loss_probes, pr.pto_count, pr.path_validated));
             }
             if let Some(at) = to {
                 let mut at = at.max(self.now);
@@ -1142,7 +1148,11 @@ impl World {
         let stuck = c.same_instant_timeouts;
         c.last_timeout_serviced = Some(self.now);
         if stuck > 32 {
-            self.violate("timeout-does-not-converge", format!("inc{}: poll_timeout() <= now after {} consecutive handle_timeout(now) + transmit drains at the same instant", inc, stuck));
+            let names = ["LossDetection", "Idle", "Close", "KeyDiscard", "PathValidation", "KeepAlive", "Pacing", "PushNewCid", "MaxAckDelay"];
+            let pr = self.conns[inc as usize].conn.verif_probe();
+            let now_i = self.instant();
+            let due: Vec<&str> = pr.timers.iter().enumerate().filter(|(_, t)| t.is_some_and(|t| t <= now_i)).map(|(i, _)| names[i]).collect();
+            self.violate("timeout-does-not-converge", format!("inc{}: poll_timeout() <= now after {} consecutive handle_timeout(now) + transmit drains at the same instant (timers still due: {:?})", inc, stuck, due));
             return;
         }
         if self.log_on {
@@ -1194,6 +1204,11 @@ impl World {
             }
             self.flush(scen);
             scen.after_step(self);
+            if crate::alloc::live() - self.live_at_start > self.limits.max_heap {
+                let g = crate::alloc::live() - self.live_at_start;
+                self.violate("world-heap-exploded", format!("the world's live heap grew by {} bytes (cap {}); last step handled datagram {:?}", g, self.limits.max_heap, self.step_dgram));
+                return;
+            }
         }
     }
 
